@@ -2608,6 +2608,10 @@ class VM:
                 raise JSError(exc)
             elif isinstance(exc, JSObject):
                 msg = exc.get("message")
+                name = exc.get("name")
+                if isinstance(name, str) and name and name != "Error":
+                    # Report the error's own class (TypeError, RangeError, ...)
+                    raise JSError(to_string(msg) if msg else "", name)
                 raise JSError(to_string(msg) if msg else "Error")
             else:
                 raise JSError(to_string(exc))
